@@ -381,16 +381,59 @@ def check(ctx, impl, label, safe, api, j, result, before, after) -> None:
         check_members(ctx, prop, base, safe, ix, j, stubs, parsed, files)
     if prop == "C10":
         check_layout(ctx, base, safe, j, stubs, outside, parsed, files)
-    if prop == "C11":
+    if prop == "C13":
+        # every line of every description text of a PUBLIC, emitted element arrives intact: it is found, unbroken, inside one
+        # line of some stub (only `\n` ends a line; the tool's own tests never contain other line-boundary characters)
+        out_lines = [ln for t in files.values() for ln in t.split("\n")]
+        blob = "\n".join(out_lines)
+
+        def lines_of(node, public, acc):
+            if isinstance(node, dict):
+                pub = public and node.get("is_public", True)
+                d = node.get("doc")
+                if pub and isinstance(d, dict) and isinstance(d.get("description"), str):
+                    acc.append((node.get("id", "?"), d["description"]))
+                for k, v in node.items():
+                    if k == "ctor" and isinstance(v, dict):
+                        # the constructor's own description is not shown; its parameters are (in the class comment)
+                        lines_of(v.get("params", []), pub, acc)
+                    else:
+                        lines_of(v, pub, acc)
+            elif isinstance(node, list):
+                for v in node:
+                    lines_of(v, public, acc)
+        acc: list = []
+        lines_of(j.get("modules", []), True, acc)
+        import re as _re
+        odd = _re.compile("[\x0b\x0c\r\x1c\x1d\x1e\x85\u2028\u2029]")
+        for owner, text in acc:
+            for ln in [x.strip(" ") for x in text.strip("\n").split("\n")]:
+                m = odd.search(ln)
+                # judged: lines that contain a line-boundary character other than `\n` (those are what "intact" is about), of
+                # elements that were emitted (the part of the line before that character is in the output)
+                if not m or m.start() < 4 or ln[:m.start()] not in blob:
+                    continue
+                if not any(ln in o for o in out_lines):
+                    ctx.oracle_failure("C13", f"a line of the description of {owner!r} does not arrive intact in one stub line: {ln[:60]!r}",
+                                       {**base, "element": owner, "line": ln, "safe": safe})
+                    break
+    if prop in ("C11", "C10"):
         # the one part of C11 that is judged on synthetic API objects: every class of another library that the generator
-        # registered (and therefore imports somewhere) is declared by a placeholder stub of its python module
+        # registered (and therefore imports somewhere) is declared by a placeholder stub of its python module.  For C10 the
+        # same observation is the visible consequence of "no path receives two different texts": a placeholder file that
+        # lacks a registered class of its module has been written a second time.
         have = {(sf.pymodule, d.pyname) for sf, _ in parsed.values() for d in sf.decls}
         for cls in outside:
             mod, _, name = cls.rpartition(".")
             if mod and (mod, name) not in have:
-                ctx.oracle_failure("C11", f"class {cls!r} of another library is imported but no placeholder stub declares it",
-                                   {**base, "class": cls, "safe": safe,
-                                    "placeholder_files": sorted(pth for pth, (sf, _) in parsed.items() if sf.pymodule == mod)})
+                files_of_mod = sorted(pth for pth, (sf, _) in parsed.items() if sf.pymodule == mod)
+                if prop == "C11":
+                    ctx.oracle_failure("C11", f"class {cls!r} of another library is imported but no placeholder stub declares it",
+                                       {**base, "class": cls, "safe": safe, "placeholder_files": files_of_mod})
+                elif files_of_mod:
+                    ctx.oracle_failure("C10", f"the placeholder stub {files_of_mod[0]!r} was written twice with different texts: "
+                                              f"class {name!r} of module {mod!r} is gone from it",
+                                       {**base, "class": cls, "safe": safe, "placeholder_files": files_of_mod})
     # C11 is otherwise not judged on synthetic API objects (they use type variables and class names the analyser would never
     # produce in those positions); S-B contributes the byte-exact correspondence of the import bookkeeping, the
     # property's predicate is evaluated by S-E on real packages (tie/oracles_e2e.check_refs)
